@@ -3,8 +3,19 @@
 import json, subprocess, os, tempfile
 claims = json.load(open('/verif/claims.json'))
 rows = []
+# ONLY=C01,C11 re-runs (or re-reads from ST_DIR) these properties and keeps the rows of the others as they are in CATCH_TABLE.md
+only = [x for x in os.environ.get('ONLY', '').split(',') if x]
+kept = {}
+if only and os.path.exists('/verif/CATCH_TABLE.md'):
+    for line in open('/verif/CATCH_TABLE.md').read().splitlines()[2:]:
+        cells = [c.strip() for c in line.strip().strip('|').split(' | ')]
+        if len(cells) == 4 and cells[0] not in only:
+            kept.setdefault(cells[0], []).append(tuple(cells))
 for pid in sorted(claims):
     if not claims[pid].get('claimed'):
+        continue
+    if only and pid not in only:
+        rows.extend(kept.get(pid, []))
         continue
     pre = os.path.join(os.environ.get('ST_DIR', '/nonexistent'), pid + '.json')
     if os.path.exists(pre):  # selftests already run (in parallel) with the same binary
